@@ -142,6 +142,9 @@ let zsv = { s0 = 0.; s1 = 0.; s2 = 0.; s3 = 0.; s4 = 0.; s5 = 0. }
 let m3tv m v = { vx = m.m00 *. v.vx +. m.m10 *. v.vy +. m.m20 *. v.vz; vy = m.m01 *. v.vx +. m.m11 *. v.vy +. m.m21 *. v.vz;
                  vz = m.m02 *. v.vx +. m.m12 *. v.vy +. m.m22 *. v.vz }
 let m3t m = { m00 = m.m00; m01 = m.m10; m02 = m.m20; m10 = m.m01; m11 = m.m11; m12 = m.m21; m20 = m.m02; m21 = m.m12; m22 = m.m22 }
+let mm3 a b = { m00 = a.m00 *. b.m00 +. a.m01 *. b.m10 +. a.m02 *. b.m20; m01 = a.m00 *. b.m01 +. a.m01 *. b.m11 +. a.m02 *. b.m21; m02 = a.m00 *. b.m02 +. a.m01 *. b.m12 +. a.m02 *. b.m22;
+              m10 = a.m10 *. b.m00 +. a.m11 *. b.m10 +. a.m12 *. b.m20; m11 = a.m10 *. b.m01 +. a.m11 *. b.m11 +. a.m12 *. b.m21; m12 = a.m10 *. b.m02 +. a.m11 *. b.m12 +. a.m12 *. b.m22;
+              m20 = a.m20 *. b.m00 +. a.m21 *. b.m10 +. a.m22 *. b.m20; m21 = a.m20 *. b.m01 +. a.m21 *. b.m11 +. a.m22 *. b.m21; m22 = a.m20 *. b.m02 +. a.m21 *. b.m12 +. a.m22 *. b.m22 }
 let v3sub a b = { vx = a.vx -. b.vx; vy = a.vy -. b.vy; vz = a.vz -. b.vz }
 let v3add a b = { vx = a.vx +. b.vx; vy = a.vy +. b.vy; vz = a.vz +. b.vz }
 let v3scale k a = { vx = k *. a.vx; vy = k *. a.vy; vz = k *. a.vz }
@@ -412,6 +415,58 @@ let cons_cmd c cmd t seq =
     let r = rank_of (gpt sy.cG c.act) in
     line "o" seq "fullact" (fun () -> ou (if r = nu then 1 else 0));
     spec_try (fun () -> line "s" seq "fullact" (fun () -> ou (if rank_of (gpt (spec_G q) c.act) = nu then 1 else 0)))
+  | "asmq" ->
+    let step = (str t = "step") in let sfx = if step then "" else "_full" in
+    let q0 = vec t in let wts = vec t in let tol = num t in let maxit = integer t in
+    let maxit = if step then 1 else maxit in
+    let ((w, ok), q) = assembly_q fo (nat_of_int maxit) m m.ws q0 c.crows wts tol in
+    setw c w;
+    let kcond () =
+      let w0 = ukc_q fo c.m c.m.ws q0 in let g = cons_G fo c.m w0 c.crows in
+      cond_est (kkt_matrix fo (List.mapi (fun i _ -> List.mapi (fun j _ -> if i = j then List.nth wts i else 0.) wts) wts) g nn (nat_of_int (List.length c.crows))) in
+    if step then begin
+      line "o" seq "asmok" (fun () -> ou (if ok then 1 else 0)); line "o" seq "asmq" (fun () -> ovec q);
+      line "i" seq "cond" (fun () -> od (kcond ())) end
+    else line "i" seq "asm_cond" (fun () -> od (kcond ()));
+    spec_try (fun () ->
+      let qi = impl_or seq ("asmq" ^ sfx) q in
+      let okv = (match impl_or seq ("asmok" ^ sfx) [if ok then 1. else 0.] with [x] -> x | _ -> 0.) in
+      let js = jets qi (zeros n_qd) (zeros n_qd) in
+      let ph = List.map2 (fun r j -> match r with RContact _ -> 0. | _ -> j.j0) c.crows js in
+      let pn = sqrt (dotl ph ph) in
+      line "i" seq "asm_residual" (fun () -> od pn);
+      if okv = 1. then begin
+        line "c" seq "asm_success_residual" (fun () -> od (max 0. (pn -. tol)); od pn);
+        (* unit quaternions *)
+        let nq = List.length qi in
+        let qa = Array.of_list qi in
+        let dev = ref 0. and k = ref 0 in
+        List.iteri (fun i (j : float joint) -> match j.jkind with
+            | JSpherical -> let qi0 = int_of_nat j.jq in let wi = n_qd + !k in incr k;
+              if wi < nq then dev := max !dev (abs_float (sqrt (qa.(qi0) ** 2. +. qa.(qi0 + 1) ** 2. +. qa.(qi0 + 2) ** 2. +. qa.(wi) ** 2.) -. 1.))
+            | _ -> ignore i) m.joints;
+        line "c" seq "asm_unit_quaternions" (fun () -> od !dev; od 1.) end)
+  | "asmqd" ->
+    let q = vec t in let qd0 = vec t in let wts = vec t in
+    let (w, sol) = assembly_qdot fo m m.ws q qd0 c.crows wts in
+    setw c w;
+    (match sol with
+     | Some (qd, _) ->
+       line "o" seq "asmqd" (fun () -> ovec qd);
+       spec_try (fun () ->
+         let qdi = impl_or seq "asmqd" qd in
+         let g = spec_G q in
+         let mm = nat_of_int (List.length c.crows) in
+         line "i" seq "cond" (fun () -> od (cond_est (kkt_matrix fo (List.mapi (fun i _ -> List.mapi (fun j _ -> if i = j then List.nth wts i else 0.) wts) wts) g nn mm)));
+         let gq = mvmul fo g qdi in
+         line "c" seq "asmqd_feasible" (fun () -> od (maxabs gq); od (maxabs qdi));
+         (* weighted least squares: W (qd - qd0) lies in the range of G^T *)
+         let r = List.map2 (fun wv (a, b) -> wv *. (a -. b)) wts (List.combine qdi qd0) in
+         let a = mmmul fo g (mTn fo g nn) mm in
+         let y = solve_consistent a (mvmul fo g r) in
+         let rr = List.map2 (fun x d -> x -. d) r (mTvmul fo g nn y) in
+         line "c" seq "asmqd_closest" (fun () -> od (maxabs rr); od (maxabs r +. maxabs qdi)))
+     | None -> line "o" seq "asmqd" (fun () -> os "singular"))
   | "imp" ->
     let _meth = str t in let q = vec t in let qdm = vec t in let vp = vec t in
     let (w, sol) = constraint_impulses fo m m.ws q qdm c.crows vp in
@@ -727,7 +782,98 @@ let run_line c (l : string) seq =
         List.iter (fun ax ->
           c.crows <- c.crows @ [RLoop (n_of_int idp, n_of_int ids, xp, xs, ax, baum, ts)];
           (try c.srows <- c.srows @ [SLoop (ref_node c rp, ref_node c rsn, xp, xs, ax)] with Not_found -> ())) axs
-      | "cjac" | "cerr" | "cverr" | "csys" | "fdc" | "imp" | "actuation" | "idc" | "fullact" -> cons_cmd c cmd t seq
+      | "ik1" ->
+        let nn = nat_of_int n_qd in
+        let step = (str t = "step") in let sfx = if step then "" else "_full" in
+        let nt = integer t in
+        let tg0 = List.init nt (fun _ -> let rs = str t in let p = v3 t in let off = v3 t in (rs, p, off)) in
+        let qs = vec t in
+        let q0 = vec t in let stol = num t in let lam = num t in let maxit = integer t in
+        let maxit = if step then 1 else maxit in
+        let ws = ukc_q fo m m.ws qs in
+        let tg = List.map (fun (rs, p, off) -> (rs, p, v3add (b2b fo c.m ws (n_of_int (ref_id c rs)) p) off)) tg0 in
+        let targets = List.map (fun (rs, p, tp) -> ((n_of_int (ref_id c rs), p), tp)) tg in
+        let ((w, ok), qres) = ik1 fo (nat_of_int maxit) m m.ws q0 targets stol lam in
+        setw c w;
+        if step then begin
+          line "o" seq "ikok" (fun () -> ou (if ok then 1 else 0)); line "o" seq "ikq" (fun () -> ovec qres);
+          let (jm, e) = ik1_rows fo c.m (ukc_q fo c.m c.m.ws q0) targets in
+          let mrows = nat_of_int (List.length e) in
+          let a = madd fo (mmmul fo jm (mTn fo jm nn) mrows) (mscale fo (lam *. lam) (mident fo mrows)) in
+          line "i" seq "cond" (fun () -> od (cond_est a)) end;
+        spec_try (fun () ->
+          (* independent residual of the implementation's result (L3 pose) *)
+          let qi = impl_or seq ("ikq" ^ sfx) qres in
+          let r = List.concat_map (fun (rs, p, off) -> let k = kstate_of c rs qi (zeros n_qd) (zeros n_qd) in
+                                    let ks = kstate_of c rs qs (zeros n_qd) (zeros n_qd) in
+                                    let d = v3sub (v3add (k_point fo ks p) off) (k_point fo k p) in [d.vx; d.vy; d.vz]) tg0 in
+          line "i" seq "ik_residual" (fun () -> od (sqrt (dotl r r))))
+      | "ik2" ->
+        let nn = nat_of_int n_qd in
+        let step = (str t = "step") in let sfx = if step then "" else "_full" in
+        let nc = integer t in
+        let raw0 = List.init nc (fun _ -> let kind = str t in let rs = str t in let p = v3 t in let off = v3 t in let wt = num t in
+                                   (kind, rs, p, off, wt)) in
+        let qs = vec t in
+        let q0 = vec t in let stol = num t in let ctol = num t in let lam = num t in let maxit = integer t in
+        let maxit = if step then 1 else maxit in
+        let ws = ukc_q fo m m.ws qs in
+        let comq qq w0 = (snd (calc_center_of_mass fo c.m w0 qq (zeros n_qd) None false)).c_com in
+        let raw = List.map (fun (kind, rs, p, off, wt) ->
+            let id = n_of_int (ref_id c rs) in
+            let tp = if kind = "comxy" then v3add (comq qs ws) off else v3add (b2b fo c.m ws id p) off in
+            (kind, rs, p, tp, world_orient fo c.m ws id, wt)) raw0 in
+        let cs = List.map (fun (kind, rs, p, tp, tO, wt) ->
+            let id = n_of_int (ref_id c rs) in
+            match kind with
+            | "full" -> IKFull (id, p, tp, tO, wt) | "orient" -> IKOrient (id, tO, wt) | "pos" -> IKPos (id, p, tp, wt)
+            | "posxy" -> IKPosXY (id, p, tp, wt) | "posz" -> IKPosZ (id, p, tp, wt) | _ -> IKCoMXY (id, tp, wt)) raw in
+        let pi_half = (atan 1.) *. 4. /. 2. in
+        let (w, r) = ik2 fo (nat_of_int maxit) O m m.ws q0 cs stol ctol lam 1e-12 pi_half 0. 0. in
+        setw c w;
+        if step then begin
+          line "o" seq "ikok" (fun () -> ou (if r.ik_ok then 1 else 0)); line "o" seq "ikq" (fun () -> ovec r.ik_Q);
+          line "o" seq "ikerr" (fun () -> od r.ik_err);
+          let w0 = ukc_q fo c.m c.m.ws q0 in
+          let (jm, e) = ik2_rows fo c.m w0 q0 cs 1e-12 pi_half in
+          let jt = mTn fo jm nn in let ek = mvmul fo jt e in
+          let a = List.mapi (fun i row -> List.mapi (fun j x -> if i = j then x +. (List.nth ek i) *. (List.nth ek i) *. 0.5 +. lam else x) row) (mmmul fo jt jm nn) in
+          line "i" seq "cond" (fun () -> od (cond_est a)) end;
+        spec_try (fun () ->
+          let qi = impl_or seq ("ikq" ^ sfx) r.ik_Q in
+          let okv = (match impl_or seq ("ikok" ^ sfx) [if r.ik_ok then 1. else 0.] with [x] -> x | _ -> 0.) in
+          let errv = (match impl_or seq ("ikerr" ^ sfx) [r.ik_err] with [x] -> x | _ -> r.ik_err) in
+          let angvec rm tO =  (* rotation vector of R * tO^T, expressed in body coordinates: R^T * log(R tO^T) *)
+            let a = mm3 rm (m3t tO) in
+            let l = { vx = a.m21 -. a.m12; vy = a.m02 -. a.m20; vz = a.m10 -. a.m01 } in
+            let ln = sqrt (l.vx *. l.vx +. l.vy *. l.vy +. l.vz *. l.vz) in
+            if ln > 1e-12 then (let f = atan2 ln (a.m00 +. a.m11 +. a.m22 -. 1.) /. ln in m3tv rm { vx = f *. l.vx; vy = f *. l.vy; vz = f *. l.vz })
+            else zero3 in
+          let wbs = lazy (whole_body fo c.sp.snodes c.sp.ssph c.sp.sndof m.gravity qs (zeros n_qd) (zeros n_qd)) in
+          let spec_res qi = List.concat_map (fun (kind, rs, p, off, wt) ->
+              let k = kstate_of c rs qi (zeros n_qd) (zeros n_qd) in
+              let ks = kstate_of c rs qs (zeros n_qd) (zeros n_qd) in
+              let tp = v3add (k_point fo ks p) off in let tO = m3t ks.kR in
+              let d = v3sub tp (k_point fo k p) in let rm = m3t k.kR in
+              let av () = let a = angvec rm tO in [wt *. a.vx; wt *. a.vy; wt *. a.vz] in
+              match kind with
+              | "full" -> av () @ [wt *. d.vx; wt *. d.vy; wt *. d.vz] | "orient" -> av ()
+              | "pos" -> [wt *. d.vx; wt *. d.vy; wt *. d.vz] | "posxy" -> [wt *. d.vx; wt *. d.vy] | "posz" -> [wt *. d.vz]
+              | _ -> let wb = whole_body fo c.sp.snodes c.sp.ssph c.sp.sndof m.gravity qi (zeros n_qd) (zeros n_qd) in
+                     let cs0 = (Lazy.force wbs).wb_com in
+                     [wt *. (cs0.vx +. off.vx -. wb.wb_com.vx); wt *. (cs0.vy +. off.vy -. wb.wb_com.vy)]) raw0 in
+          let res = spec_res qi in
+          let rn = sqrt (dotl res res) in
+          (* the documented constraint tolerance is honoured: a start configuration whose residual is already clearly
+             below constraint_tol is returned unchanged with success *)
+          (let r0 = spec_res q0 in let rn0 = sqrt (dotl r0 r0) in
+           if step && rn0 < 0.5 *. ctol then
+             line "c" seq "ik_tol_honoured" (fun () ->
+               od (if okv = 1. && List.length qi = List.length q0 then maxabs (List.map2 (fun a b -> a -. b) qi q0) else 1.); od 1.));
+          line "i" seq "ik_residual" (fun () -> od rn);
+          (* a reported success: the independently computed residual is within the reported error norm *)
+          if okv = 1. then line "c" seq "ik_success_residual" (fun () -> od (max 0. (rn -. errv)); od rn))
+      | "cjac" | "cerr" | "cverr" | "csys" | "fdc" | "imp" | "actuation" | "idc" | "fullact" | "asmq" | "asmqd" -> cons_cmd c cmd t seq
       | _ -> if not (!ext_cmd c cmd t seq) then line "o" seq "unknown" (fun () -> os cmd)
     with Failure _ | Invalid_argument _ | Not_found -> line "o" seq "status" (fun () -> os "exception")
   end
